@@ -8,12 +8,12 @@
 (***************************************************************************)
 EXTENDS Exchange, Bags
 
-CONSTANTS NSess, NMsg, MaxRtx, Nstart, AckMin, AckMax, MaxTime, MaxDup, SubmitUntil
+CONSTANTS NSess, NMsg, MaxRtx, Nstart, AckMin, AckMax, MaxTime, MaxDup, SubmitUntil, OneDeepMemory
 
 VARIABLES st, chan, nsub, decided, dups
 vars == <<st, chan, nsub, decided, dups>>
 
-Cfg == [ackMin |-> AckMin, ackMax |-> AckMax, tol |-> 0, maxRtx |-> MaxRtx, nstart |-> Nstart, sess |-> 1..NSess]
+Cfg == [ackMin |-> AckMin, ackMax |-> AckMax, tol |-> 0, maxRtx |-> MaxRtx, nstart |-> Nstart, sess |-> 1..NSess, oneDeep |-> OneDeepMemory]
 
 Dg(dir, s, ty, code, mid, tok) == [dir |-> dir, s |-> s, ty |-> ty, code |-> code, mid |-> mid, tok |-> tok]
 
